@@ -12,6 +12,15 @@ Suites
               fluent.syntax AST is converted (not re-parsed) to the model's term;
               getChecker(File('x.ftl','x.ftl',locale=L)).check(refEntity, l10nEntity)
               against the extracted model, for a handful of locales
+  FTL-E2E     the same grammar end to end: reference and localized `x.ftl` files written to a
+              temporary directory; ContentComparer().compare(File(ref), File(l10n, locale=L), None)
+              with a recording Observer for several locales, and L10nLinter().lint_file(l10n, ref,
+              []); ids in several styles (plain, containing key/Key), localized entries that ARE
+              the reference entry (verbatim copies: [one]/*[other] under ru, duplicated attributes
+              and bad style on both sides), terms; every notification "<msg> at line L, column C
+              for <key>" is mapped back to its entry and offset through the text written to disk
+              and judged by the same by-construction oracle; the model (fed the parsed entries)
+              must predict the same notifications (FTL-E2E-compare, FTL-E2E-lint)
 Oracle (implementation only): while printing, the printer records by construction what
 the entry contains at the level of the property's wording (value or not, attribute
 names with offsets, references that stand in a pattern of the value / of an attribute,
@@ -21,6 +30,8 @@ these records by set operations — no AST, no visitor, no regular expression.
 """
 import copy
 import json
+import os
+import re
 
 from harness import common, rxsuite
 from harness.common import Model, canon, impl_result
@@ -539,7 +550,7 @@ def classify(sev, msg, cat):
 
 
 def judge(chk, info, want, raw, text):
-    """the property on the implementation's own answer"""
+    """the property on the implementation's own answer (raw: the tuples of check())"""
     got = []
     enc = []
     for sev, pos, msg, cat in raw:
@@ -551,11 +562,17 @@ def judge(chk, info, want, raw, text):
             chk.fail("category", info, str((sev, pos, msg, cat)))
         got.append((sev, int(pos), k, arg if k not in ("css-error", "css-warning") else
                     ("" if k == "css-error" else None)))
-    if enc != [i for i, c in enumerate(text) if c == "�"]:
-        chk.fail("encoding-warnings", info, {"got": enc})
+    judge_got(chk, info, want, got, enc, text)
+
+
+def judge_got(chk, info, want, got, enc, text, prefix=""):
+    """got: (severity, offset, kind, argument) in the order reported; enc: offsets of the
+    encoding warnings; prefix: prepended to the signature (end-to-end streams)"""
+    if enc != [i for i, c in enumerate(text) if c == "\ufffd"]:
+        chk.fail(prefix + "encoding-warnings", info, {"got": enc})
     poss = [p for _, p, _, _ in got]
     if poss != sorted(poss):
-        chk.fail("not-sorted-by-position", info, {"got": got})
+        chk.fail(prefix + "not-sorted-by-position", info, {"got": got})
     free = [w for w in want if w[0] == "any"]
     want = [w for w in want if w[0] != "any"]
     g = sorted(got, key=skey)
@@ -573,9 +590,11 @@ def judge(chk, info, want, raw, text):
         sig = "errors-differ"
     elif sorted((s, k, a or "") for s, _, k, a in g) == sorted((s, k, a or "") for s, _, k, a in want):
         sig = "positions-differ"
+    elif not g and want:
+        sig = "warnings-missed"
     else:
         sig = "warnings-differ"
-    chk.fail(sig, info, {"got": g, "expected": want})
+    chk.fail(prefix + sig, info, {"got": g, "expected": want})
 
 
 # --------------------------------------------------------- implementation ---
@@ -817,6 +836,228 @@ def run_plurals(chk, model):
         chk.correspond("PLURALS", locs, impl, model.call(reqs))
 
 
+# ------------------------------------------------------------- end to end ---
+ID_STYLES = ["m%d", "menu-key%d", "accessKey%d", "Key%d-label", "btn%d", "x%d-keys"]
+E2E_LOCALES = ["ru", "en-US", "ar", "ja", "cy", "de", None]
+NOTE = re.compile(r"^(.*) at line (\d+), column (\d+) for (\S+)$", re.S)
+LINT_OTHER = ("Changes to string require a new ID", "Duplicate string with ID")
+
+
+def build_file(shapes, idents, rng):
+    """-> (text, entry starts, Printer records, entry texts); between entries a newline, sometimes a
+    blank line or a group comment (never attached to an entry)"""
+    text, starts, ps, texts = "", [], [], []
+    for e, ident in zip(shapes, idents):
+        r = rng.random()
+        if r < 0.15:
+            text += "\n"
+        elif r < 0.25:
+            text += "## section\n\n"
+        p = Printer()
+        t = p.entry(e, ident)
+        starts.append(len(text))
+        text += t + "\n"
+        ps.append(p)
+        texts.append(t)
+    return text, starts, ps, texts
+
+
+def abs_pos(text, line, col):
+    """offset of 1-based (line, column), counting the newlines of the text written to disk"""
+    pos = 0
+    for _ in range(line - 1):
+        pos = text.find("\n", pos) + 1
+        if pos == 0:
+            return None                      # no such line in the localized file
+    return pos + col - 1
+
+
+def e2e_pairs(rng, n):
+    """same-kind pairs: verbatim copies, mutated copies, independent entries"""
+    out = []
+    for _ in range(n):
+        r = gen_entry(rng)
+        x = rng.random()
+        if x < 0.3:
+            l = copy.deepcopy(r)
+        elif x < 0.85:
+            l = mutate(rng, r)
+        else:
+            l = gen_entry(rng, term=r["term"])
+        out.append((r, l))
+    return out
+
+
+def e2e_corners():
+    """what must be reported although the localized entry IS the reference entry"""
+    T = lambda s: ("text", s, None)  # noqa: E731
+    P = lambda x: ("place", x)  # noqa: E731
+    sel = ("sel", ("var", "n"), [[("id", "one"), False, [T("one")]], [("id", "other"), True, [T("many")]]])
+    dsel = ("sel", ("var", "n"), [[("id", "one"), False, [T("a")]], [("id", "one"), False, [T("b")]],
+                                  [("id", "other"), True, [T("c")]]])
+    bad = ("text", "width: 10px height: 2em", ("bad",))
+    E = lambda v, attrs=(), term=False: {"term": term, "comment": False, "value": v,  # noqa: E731
+                                         "attrs": [list(a) for a in attrs]}
+    same = [
+        E([P(sel)]),                                                   # [one] *[other]: incomplete under ru, ar, cy
+        E([T("v")], [("title", [T("1")]), ("title", [T("2")])]),       # duplicated attribute on both sides
+        E([T("v")], [("style", [bad])]),                               # bad style on both sides
+        E([P(dsel)], [("label", [P(sel)])]),                           # duplicated variant key
+        E([P(dsel)], [("title", [T("1")]), ("title", [P(sel)])], term=True),
+    ]
+    pairs = [(e, copy.deepcopy(e)) for e in same]
+    pairs.append((E([T("v")], [("title", [T("t")])]), E(None, [("label", [P(("msg", "foo", None))])])))
+    pairs.append((E([P(("msg", "foo", None))]), E([P(("msg", "bar", None)), T("\ufffd")])))
+    return pairs
+
+
+class Recorder:
+    """an Observer that keeps every notification"""
+
+    def __new__(cls):
+        from compare_locales.compare.observer import Observer
+
+        class Rec(Observer):
+            def __init__(self):
+                super().__init__()
+                self.seen = []
+
+            def notify(self, category, file, data):
+                self.seen.append((category, data))
+                return super().notify(category, file, data)
+        return Rec()
+
+
+def by_entry(starts, pos):
+    import bisect
+    return bisect.bisect_right(starts, pos) - 1
+
+
+def e2e_got(sev, msg, off, key):
+    """-> ('enc', offset) | (severity, offset, kind, argument)"""
+    if msg == "\ufffd in: " + key:
+        return ("enc", off)
+    k, arg = classify(sev, msg, "fluent")
+    return (sev, off, k, arg if k not in ("css-error", "css-warning") else ("" if k == "css-error" else None))
+
+
+def run_e2e(chk, model):
+    """ContentComparer.compare and L10nLinter.lint_file on real files"""
+    import shutil
+    import tempfile
+    from compare_locales.compare.content import ContentComparer
+    from compare_locales.lint.linter import L10nLinter
+    from compare_locales.paths import File
+    from compare_locales import parser
+    rng = chk.rng
+    tmp = tempfile.mkdtemp(prefix="verif_c08_")
+    cases, impl, reqs = [], [], []
+    lcases, limpl, lreqs = [], [], []
+    try:
+        nfiles = chk.n(32, 320)
+        for fi in range(nfiles):
+            pairs = e2e_corners() if fi % 16 == 0 else e2e_pairs(rng, 10)
+            idents = []
+            for i, (r, l) in enumerate(pairs):
+                style = ID_STYLES[(i + fi) % len(ID_STYLES)] if fi % 16 == 0 else rng.choice(ID_STYLES)
+                idents.append(style % (fi * 100 + i))
+            rtext, rstarts, rps, rtexts = build_file([r for r, _ in pairs], idents, rng)
+            ltext, lstarts, lps, ltexts = build_file([l for _, l in pairs], idents, rng)
+            d = os.path.join(tmp, "f%d" % fi)
+            os.makedirs(os.path.join(d, "ref"))
+            os.makedirs(os.path.join(d, "l10n"))
+            rpath, lpath = os.path.join(d, "ref", "x.ftl"), os.path.join(d, "l10n", "x.ftl")
+            for path, text in ((rpath, rtext), (lpath, ltext)):
+                with open(path, "w", encoding="utf-8", newline="") as f:
+                    f.write(text)
+            keys = [("-" if r["term"] else "") + ident for (r, _), ident in zip(pairs, idents)]
+            index = {k: i for i, k in enumerate(keys)}
+            # the model's terms: the files parsed by the real parser
+            ents = []
+            for text in (rtext, ltext):
+                p = parser.getParser("x.ftl")
+                p.readUnicode(text)
+                es = [e for e in p.walk(only_localizable=True)]
+                if len(es) != len(pairs) or any(not isinstance(e, parser.FluentEntity) for e in es):
+                    raise RuntimeError("printer produced text the Fluent parser rejects: %r" % text[:300])
+                ents.append(es)
+            rsx = [entry_sx(e.entry) for e in ents[0]]
+            lsx = [entry_sx(e.entry) for e in ents[1]]
+            locs = (["ru", "en-US", "ar"] if fi % 16 == 0 else rng.sample(E2E_LOCALES, 2))
+            for loc in locs:
+                cc = ContentComparer()
+                obs = Recorder()
+                cc.observers.append(obs)
+                cc.compare(File(rpath, "x.ftl"), File(lpath, "x.ftl", locale=loc), None)
+                per = [[] for _ in pairs]
+                for cat, data in obs.seen:
+                    m = NOTE.match(data) if cat in ("error", "warning") and isinstance(data, str) else None
+                    if not m or m.group(4) not in index:
+                        chk.fail("e2e-unexpected-notification", {"reference": rtext, "localized": ltext,
+                                                                 "locale": loc}, str((cat, data))[:300])
+                        continue
+                    i = index[m.group(4)]
+                    pos = abs_pos(ltext, int(m.group(2)), int(m.group(3)))
+                    if pos is None:
+                        chk.fail("e2e-position-outside-file", {"reference": rtexts[i], "localized": ltexts[i],
+                                                               "locale": loc, "id": keys[i]}, data[:300])
+                        pos = len(ltext)
+                    per[i].append((cat, m.group(1), pos))
+                for i, (r, l) in enumerate(pairs):
+                    info = {"reference": rtexts[i], "localized": ltexts[i], "locale": loc, "id": keys[i],
+                            "same": rtexts[i] == ltexts[i], "via": "ContentComparer.compare"}
+                    items = [e2e_got(s, m, pos - lstarts[i], keys[i]) for s, m, pos in per[i]]
+                    judge_got(chk, info, expected(rps[i], r, lps[i], l, loc),
+                              [x for x in items if x[0] != "enc"], [x[1] for x in items if x[0] == "enc"],
+                              ltexts[i], prefix="e2e-")
+                    chk.evaluations += 1
+                    if per[i]:
+                        chk.distinct.add(common.hashlib.sha1(
+                            repr(("e2e", rtexts[i], ltexts[i], loc)).encode()).digest()[:8])
+                    chk.hist("e2e_id_style", ("key" if re.search("[kK]ey", keys[i]) else "plain") + "/" +
+                             ("same" if info["same"] else "different") + "/" +
+                             ("reported" if per[i] else "silent"))
+                    cases.append(info)
+                    impl.append(sorted([int(s == "error"), pos, canon(m)] for s, m, pos in per[i]))
+                    reqs.append((0, [ostr(loc), rsx[i], lsx[i], canon(ents[1][i].all), canon(ents[1][i].key)]))
+            # the linter: every entry of the localized file against itself, locale en-US
+            res = list(L10nLinter().lint_file(lpath, rpath, []))
+            per = [[] for _ in pairs]
+            for x in res:
+                if x["message"].startswith(LINT_OTHER):
+                    continue
+                pos = abs_pos(ltext, x["lineno"], x["column"])
+                if pos is None:
+                    chk.fail("lint-position-outside-file", {"localized": ltext}, str(x)[:300])
+                    pos = len(ltext)
+                i = by_entry(lstarts, pos)
+                per[i].append((x["level"], x["message"], pos))
+            for i, (r, l) in enumerate(pairs):
+                info = {"reference": ltexts[i], "localized": ltexts[i], "locale": "en-US", "id": keys[i],
+                        "via": "L10nLinter.lint_file"}
+                items = [e2e_got(s, m, pos - lstarts[i], keys[i]) for s, m, pos in per[i]]
+                judge_got(chk, info, expected(lps[i], l, lps[i], l, "en-US"),
+                          [x for x in items if x[0] != "enc"], [x[1] for x in items if x[0] == "enc"],
+                          ltexts[i], prefix="lint-")
+                chk.evaluations += 1
+                lcases.append(info)
+                limpl.append(sorted([int(s == "error"), pos, canon(m)] for s, m, pos in per[i]))
+                lreqs.append((0, [ostr("en-US"), lsx[i], lsx[i], canon(ents[1][i].all), canon(ents[1][i].key)]))
+    finally:
+        shutil.rmtree(tmp, ignore_errors=True)
+    k = 3
+    chk.sample({"suite": "FTL-E2E", **cases[k], "notifications": [[e, p, common.l2s(m)] for e, p, m in impl[k]]})
+    if model:
+        def conv(outs, rq):
+            res = []
+            for o, (_, payload) in zip(outs, rq):
+                start = payload[2][1]
+                res.append(sorted([it[0], start + it[1][1], it[2]] for it in o[1]) if o and o[0] == 0 else o)
+            return res
+        chk.correspond("FTL-E2E-compare", cases, impl, conv(model.call(reqs), reqs))
+        chk.correspond("FTL-E2E-lint", lcases, limpl, conv(model.call(lreqs), lreqs))
+
+
 # ------------------------------------------------------------------- corpus ---
 def edge_pairs():
     """hand-written shapes for the corners (run first, every tier)"""
@@ -879,6 +1120,7 @@ def run(chk, runner_ok):
             l = gen_entry(rng, term=r["term"] if rng.random() < 0.9 else None)
         pairs.append((r, l))
     run_pairs(chk, model, "FTL-CHECK", pairs, chk.n(3, 4))
+    run_e2e(chk, model)
     chk.trusted.append("fluent.syntax 0.19: FluentParser (spans) and Visitor.generic_visit's field order "
                        "(modelled as constructor argument order; tied by FTL-CHECK only)")
     chk.notes.append("missing-/obsolete-attribute errors come out in the iteration order of a Python set of "
